@@ -260,6 +260,48 @@ def var_alphabet(objs, alts, vals, becomes, throws):
     return ops
 
 
+def variant_post_state(line, out):
+    """what an operation must leave in its target, read off the operation itself (non-throwing constructions)"""
+    ops = line.split(' ')[1].split(',')
+    nalt = 4 if line.startswith('varm') else 3
+    raw = out.split(' ')
+    i = 0
+    prev = ['X', 'X', 'X']
+    for op in ops:
+        skipped = raw[i] == 'skip'
+        tok = raw[i + 1] if skipped else raw[i]
+        i += 2 if skipped else 1
+        st = tok.split('|', 1)[1].split(';')
+        if not skipped:
+            a = op[1:].split(':')
+            t = int(a[0])
+            want = None
+            threw = len(a) > 3 and a[3] == '1' and not (line.startswith('varm') and a[1] in ('0', '2'))
+            if op[0] == 'V' and not threw:
+                want = 'A%s:%s' % (a[1], a[2])
+            elif op[0] == 's' and not threw:
+                want = 'A%s:%s' % (a[1], a[2])
+            elif op[0] in 'eN':
+                want = 'E'
+            elif op[0] in 'CXam' and int(a[1]) != t:
+                want = prev[int(a[1])]
+            elif op[0] == 'B':
+                k = int(a[1])
+                cur = prev[t]
+                if cur != 'E' and cur.startswith('A') and int(cur[1:].split(':')[0]) == k:
+                    want = cur
+                elif cur == 'E' and k == -1:
+                    want = 'E'
+                elif 0 <= k < nalt:
+                    want = 'A%d:0' % k
+                else:
+                    want = 'E'
+            if want is not None and st[t] != want:
+                return 'after %s object %d is %s; the operation must leave %s' % (op, t, st[t], want)
+        prev = st
+    return None
+
+
 def check_C12(ctx):
     proofs_or_violation(ctx, ['Properties_C12.v'], bridge=False)
     pool = get_pool()
@@ -269,7 +311,7 @@ def check_C12(ctx):
     rnd = var_alphabet([0, 1, 2], [0, 1, 2], [1, 2, 3], [-2, -1, 0, 1, 2, 3, 4], [0, 0, 1])
     cases = histories(ctx, alpha, setups, rnd, ['var'], 2 if ctx.quick else 3, 3000 if ctx.quick else 80000, 16 if ctx.quick else 40)
     n = run_histories(ctx, pool, cases, 'A', 'variant-histories',
-                      'Variant<Tr<0>,Tr<1>,Tr<2>> index, active element, Visit/get/is observers and element lifetime after every step = model v_step')
+                      'Variant<Tr<0>,Tr<1>,Tr<2>> index, active element, Visit/get/is observers and element lifetime after every step = model v_step', extra_oracle=variant_post_state)
     # a Variant whose alternatives 0 and 2 are trivially destructible (float, int) and 1 and 3 track their lifetime:
     # only the tracked ones are counted; the model is compared on which alternative is active
     malpha = var_alphabet([0, 1], [0, 1, 2, 3], [7], [-1, 1, 4], [0]) + ['s0:1:8:1', 's1:3:8:1', 'V1:3:8:1', 'a0:2', 'm0:2', 'm2:0']
@@ -294,7 +336,7 @@ def check_C12(ctx):
                 toks.append(t)
         return toks
     n2 = run_histories(ctx, pool, mcases, lambda o: o.startswith(('A1:', 'A3:')), 'variant-mixed-histories',
-                       'Variant<float,Tr<1>,int,Tr<3>>: active alternative after every step = model v_step', project=active_only)
+                       'Variant<float,Tr<1>,int,Tr<3>>: active alternative after every step = model v_step', project=active_only, extra_oracle=variant_post_state)
     return finish_with_proofs(ctx, {'variant_histories': n, 'variant_mixed_trivial_histories': n2})
 
 
@@ -502,6 +544,27 @@ def check_C15(ctx):
         if not m.startswith('DRIVER') and canon_fields(sx.fields(m)) != canon_fields(g):
             broken.append({'case': line, 'hraw': o, 'mraw': m})
     report_broken(ctx, broken, 'table-channel-read', 'Deserializer::Read over the table channel (status, value, bytes consumed) = model dec over tlr_ops')
+    # (b') the reader fails to resolve a reference: whatever error it reports comes back unchanged
+    gl, gmeta = [], []
+    for i, d, hx, hstr, table in dec_items[: (150 if ctx.quick else 4000)]:
+        gl.append('fdec T%d - 0 %s %s' % (i, hx, hstr)); gmeta.append((i, hx, hstr, None))
+    go = run_harness(pool, gl)
+    gl2, gmeta2 = [], []
+    for line, (i, hx, hstr, _), o in zip(gl, gmeta, go):
+        if o.startswith(BADOUT):
+            continue
+        log = sx.fields(o).get('log', '-')
+        calls = log.split(',') if log != '-' else []
+        for kk, c in enumerate(calls):
+            if c.startswith('G'):
+                code = rng.choice([2, 8, 9, 12, 14, 15, 16, 17, 18])
+                gl2.append('fdec T%d %d %d %s %s' % (i, kk, code, hx, hstr)); gmeta2.append((kk, code))
+    go2 = run_harness(pool, gl2)
+    for line, (kk, code), o in zip(gl2, gmeta2, go2):
+        ctx.count('gethandle-fault', line)
+        g = sx.fields(o) if not o.startswith(BADOUT) else {'st': 'crash'}
+        if g.get('st') != str(code):
+            ctx.violate('handle-resolution', 'GetHandle (reader call %d) failed with %d but the read returned status %s: %s' % (kk, code, g.get('st'), line[:200]), {'case': line, 'output': o})
     # (c) a wrong type tag on a single handle is UnexpectedHandleType, before the reference is resolved
     tag_lines = []
     for i in tids:
@@ -568,7 +631,7 @@ def canon_log(log):
 
 def canon_action(a):
     a = dict(a)
-    a.pop('wcalls', None); a.pop('waited', None)      # harness-only observations (C10)
+    a.pop('wcalls', None); a.pop('waited', None); a.pop('rcalls', None)      # harness-only observations (C10, C14)
     a['log'] = canon_log(a.get('log', '-'))
     if a.get('inv', '-').startswith('0:'):
         a['inv'] = '0:' + sx.canon_text(a['inv'][2:])
@@ -719,7 +782,43 @@ def check_C14(ctx):
             if any(fm.get(x) != a.get(x) for x in keys):
                 broken.append({'case': line, 'hraw': o, 'mraw': m})
     report_broken(ctx, broken, 'raw-requests', 'dispatch of arbitrary request bytes (status, handler log, reply bytes) = model dispatch')
-    return finish_with_proofs(ctx, {'interfaces': len(ifaces), 'dispatch_tables': len(sets), 'call_sequences': len(cases), 'raw_requests': len(lines2)})
+    # ---- the reply cannot be sent: the dispatcher must report exactly the writer's error (and the caller gets no value)
+    rf = []
+    for s, tag, mt, hx in valid_requests[:60 if ctx.quick else 1500]:
+        k, pk, bs = sets[s]
+        base = 'rpc %d %d %d | ' % (k, s, tag)
+        call = '%d %s%s' % (mt['m'], mt['ret'], ''.join(' ' + a for a in mt['args']))
+        rf.append((s, base + 'I ' + call, None, None, mt))
+    res3 = []
+    for b in ('rpc', 'rpcp'):
+        cs = [c for c in rf if binary(sets[c[0]][1]) == b]
+        if cs:
+            ho = run_parallel([os.path.join(pool.dir, b)], [c[1] for c in cs], env=ASAN_ENV, what=b)
+            res3 += list(zip(cs, ho))
+    rf2 = []
+    for (s, line, _, _, mt), o in res3:
+        if o.startswith(BADOUT):
+            continue
+        n = int(parse_actions(o)[0].get('rcalls', '0'))
+        k, pk, bs = sets[s]
+        tagv = line.split(' ')[3]
+        for kk in range(n):
+            code = rng.choice([13, 14, 15, 16, 17, 18])
+            rf2.append((s, 'rpc %d %d %s | Y %d %d %d %s%s' % (k, s, tagv, kk, code, mt['m'], mt['ret'], ''.join(' ' + a for a in mt['args'])), kk, code))
+    for b in ('rpc', 'rpcp'):
+        cs = [c for c in rf2 if binary(sets[c[0]][1]) == b]
+        if not cs:
+            continue
+        ho = run_parallel([os.path.join(pool.dir, b)], [c[1] for c in cs], env=ASAN_ENV, what=b)
+        for (s, line, kk, code), o in zip(cs, ho):
+            ctx.count('reply-writer-fault:set%d' % s, line)
+            if o.startswith(BADOUT):
+                ctx.violate('memory-error', 'RPC harness crashed under a reply-writer fault: %s -> %s' % (line[:200], o[:300]), {'case': line, 'output': o})
+                continue
+            a = parse_actions(o)[0]
+            if a['disp'] != str(code):
+                ctx.violate('dispatch', 'the reply writer failed with %d at its call %d but the dispatcher returned status %s: %s' % (code, kk, a['disp'], line[:300]), {'case': line, 'output': o})
+    return finish_with_proofs(ctx, {'interfaces': len(ifaces), 'dispatch_tables': len(sets), 'call_sequences': len(cases), 'raw_requests': len(lines2), 'reply_writer_faults': len(rf2)})
 
 
 def split_top(s):
@@ -775,7 +874,8 @@ def check_C19(ctx):
             elif k < 0.50: ops.append('G%d' % s)
             elif k < 0.60: ops.append('S%d:%d' % (s, rng.randrange(1, 1000)))
             elif k < 0.68: ops.append('C%d' % s)
-            elif k < 0.80: ops.append('E%d' % rng.randrange(0, 64))
+            elif k < 0.76: ops.append('E%d' % rng.randrange(0, 64))
+            elif k < 0.82: ops.append('F%d' % rng.randrange(0, 64))
             elif k < 0.90: ops.append('T%d' % rng.randrange(0, 64))
             else: ops.append('R%d' % rng.randrange(0, 64))
         return ','.join(ops)
@@ -802,6 +902,22 @@ def check_C19(ctx):
             i = next(k for k in range(len(ct)) if ct[k] != st[k])
             ctx.violate('schedule-dependent', 'thread %d observed %s when run concurrently but %s when the threads run one after the other; %s' % (i, ct[i][:200], st[i][:200], line[:200]),
                         {'case': line, 'output': o})
+            continue
+        def good(op, x):
+            if not x[2:].startswith('ok:'):
+                return False
+            if x[0] in 'ETF':
+                return x.endswith(':same')
+            n = int(op[1:])
+            return x == ('R:ok:%d' % (2 * n + 1) if n % 2 else 'R:ok:a%db' % n)
+        notok = []
+        for sc_, t in zip(line.split(' ')[2].split(';'), f['conc'].split(';')):
+            ops_ = [o_ for o_ in sc_.split(',') if o_ and (o_[0] in 'ETRFG')]
+            for o_, x in zip(ops_, t.split(',') if t != '-' else []):
+                if o_[0] in 'ETRF' and not good(o_, x):
+                    notok.append(x)
+        if notok:
+            ctx.violate('thread-result', 'a thread working on its own objects got %s (the same operation succeeds when nothing else runs); %s' % (notok[0][:160], line[:200]), {'case': line, 'output': o})
             continue
         tl = ';'.join(','.join(x for x in t.split(',') if x.startswith('G:')) or '-' for t in f['conc'].split(';'))
         # what the property itself says each thread must see: its own cells only, first initialisation wins until Clear
